@@ -776,6 +776,15 @@ func (f *FnVC) trCall(env *Env, x SCall) TV {
 		a := arg(0)
 		mt := env.rangeIter.X.Type().Underlying().(*types.Map)
 		return TV{sSel(env.st.get(f.visitedHeap(env.rangeIter, mt)), a.T), boolTy, "Bool"}
+	case "storeAt":
+		// storeAt(m, k, v): ghost map m with key k set to v
+		a, k, v := arg(0), arg(1), arg(2)
+		if d, ok := f.ghostDesc[a.T]; ok {
+			t := sStore(a.T, k.T, v.T)
+			f.ghostDesc[t] = d
+			return TV{t, nil, a.Sort}
+		}
+		sfail("storeAt: first argument must be a ghost map")
 	case "addrOfField":
 		// addrOfField(p, f): address of field f of the struct p points to
 		a := arg(0)
